@@ -323,7 +323,8 @@ class JbWorld(BaseWorld):
 def gen_bwe(ch, spec):
     cfg = {"world": "bwe"}
     cfg["send_origin"] = ch.choice("cfg", [0.0, 63.5, 63.9, 1000.123, 12345.678])   # sender clock offset (s)
-    cfg["nssrc"] = ch.choice("cfg", [1, 1, 2, 3])
+    # ("any number of SSRCs": also more than the 255 a REMB can list)
+    cfg["nssrc"] = ch.choice("cfg", [1, 1, 1, 2, 2, 3, 3, 40, 255, 256, 300])
     cfg["ssrcs"] = [ch.randint("cfg", 0, 0xFFFFFFFF, 1234 + i) for i in range(cfg["nssrc"])]
     cfg["prop"] = ch.choice("cfg", [0.001, 0.02, 0.1])
     net = random_profile(ch, "cfg", intensity=ch.choice("cfg", [0.0, 0.02, 0.1])) if ch.chance("cfg", 0.5) \
@@ -530,8 +531,14 @@ class BweWorld(BaseWorld):
                 raise ValueError("bad REMB encoding")
         except Exception as exc:  # noqa
             self.violation("C15", "estimate-not-REMB-encodable:" + type(exc).__name__, "%r %r" % (est, exc))
-        if sorted(ssrcs) != sorted(self.seen_ssrcs) or len(ssrcs) != len(set(ssrcs)):
-            self.violation("C15", "estimate-lists-wrong-ssrcs", "listed=%r seen=%r" % (ssrcs, self.seen_ssrcs))
+        if len(self.seen_ssrcs) <= 255:
+            wrong = sorted(ssrcs) != sorted(self.seen_ssrcs) or len(ssrcs) != len(set(ssrcs))
+        else:
+            # (more sources than a REMB can list: as many as it can carry, each of them seen, none twice)
+            self.probes["estimates_with_more_than_255_sources_seen"] += 1
+            wrong = len(ssrcs) != 255 or len(set(ssrcs)) != 255 or not set(ssrcs) <= set(self.seen_ssrcs)
+        if wrong:
+            self.violation("C15", "estimate-lists-wrong-ssrcs", "listed=%r seen=%r" % (ssrcs[:8], self.seen_ssrcs[:8]))
         m = self.latest_m
         if m is None:
             self.exempt["estimate_before_any_measurement"] += 1
